@@ -332,7 +332,7 @@ func (o *structFieldsCBOR) FromCBOR(dm cbor.DecMode, data []byte) error {
 		return err
 	}
 
-	if mapLen != 0 {
+	if additionalInfo != 31 { // definite-length map (possibly empty)
 		o.Fields = make(map[int]cbor.RawMessage, mapLen)
 
 		for i := 0; i < mapLen; i++ {
@@ -341,7 +341,7 @@ func (o *structFieldsCBOR) FromCBOR(dm cbor.DecMode, data []byte) error {
 				return fmt.Errorf("map item %d: %w", i, err)
 			}
 		}
-	} else { // mapLen == 0 --> indefinite encoding
+	} else { // indefinite encoding
 		o.Fields = make(map[int]cbor.RawMessage)
 
 		i := 0
